@@ -113,6 +113,14 @@ def c08_case(draw):
             if len(g["c"]) < 2 or draw(st.booleans()):
                 g["c"].insert(draw(st.integers(0, len(g["c"]))), docs.node("rect", {"width": "10", "height": "10", draw(st.sampled_from(["fill", "display"])): "none"}))
             feat = feat + ["fading-group"]
+    gids = [c["a"]["id"] for d in root["c"] if d["tag"] == "defs" for c in d["c"] if c["tag"] in ("linearGradient", "radialGradient") and "id" in c["a"]]
+    if gids and draw(st.integers(0, 4)) == 0:
+        # a gradient whose (possibly only) user paints with it as a stroke: it becomes the fill of the outline path
+        g = draw(st.sampled_from(gids))
+        n = docs.node(draw(st.sampled_from(["rect", "circle", "path"])), {"fill": draw(st.sampled_from(["none", "none", "gray"])), "stroke": f"url(#{g})", "stroke-width": draw(st.sampled_from(["2", "3.5", "6"]))})
+        n["a"].update({"rect": {"x": "5", "y": "6", "width": "30", "height": "20"}, "circle": {"cx": "20", "cy": "20", "r": "12"}, "path": {"d": "M4,4 L40,8 L20,30"}}[n["tag"]])
+        root["c"].append(n)
+        feat = feat + ["gradient-stroke"]
     r = draw(st.integers(0, 9))
     if r <= 2:
         # a root without viewBox (r <= 1: without any size at all, r == 2: width/height instead) is accepted too
